@@ -46,7 +46,7 @@ def gen_tokens(rng, ci, tag, n, used):
             if val not in used:
                 used.add(val)
                 break
-        kind = rng.choice(["raw", "raw", "env", "file"])
+        kind = rng.choice(["raw", "raw", "env", "file", "vault"])
         env, files = {}, {}
         ws = None
         if rng.random() < 0.12:
@@ -65,6 +65,12 @@ def gen_tokens(rng, ci, tag, n, used):
             name = "VERIF_C11_%d_%s_%d" % (ci, tag.upper(), k)
             env[name] = val
             ref = "env:" + name
+        elif kind == "vault":
+            # all vault: references of one configuration live in different FIELDS of one KV entry (a fake Vault on loopback serves it)
+            field = "%s_%d" % (tag, k)
+            out.append({"ref": "vault:secret/data/hookaido/c%d#%s" % (ci, field), "val": val, "env": {}, "files": {},
+                        "vault": {"/v1/secret/data/hookaido/c%d" % ci: {field: val}}})
+            continue
         else:
             fname = "%s%d" % (tag, k)
             files[fname] = L.hx(val + rng.choice(["", "\n", "  \n"]))
@@ -92,29 +98,34 @@ def gen_config(rng, ci):
     pull_prefix = rng.choice(["/papi", "/papi", "/v1/pull"]) if (shared or rng.random() < 0.5) else ""
     admin_prefix = rng.choice(["/admin", "/adm/v2"]) if (shared or rng.random() < 0.4) else ""
     env, files = {}, {}
+    vault = {}
+
+    def take_vault(t):
+        for pth, fields in (t.get("vault") or {}).items():
+            vault.setdefault(pth, {}).update(fields)
     lines = ['ingress { listen "__INGRESS__" }']
     pl = ['  listen "__PULL__"', '  grpc_listen "__GRPC__"']
     if pull_prefix:
         pl.append("  prefix %s" % q(pull_prefix))
     for t in glob:
         pl.append("  auth token %s" % q(t["ref"]))
-        env.update(t["env"]); files.update(t["files"])
+        env.update(t["env"]); files.update(t["files"]); take_vault(t)
     lines.append("pull_api {\n%s\n}" % "\n".join(pl))
     al = ['  listen "%s"' % ("__PULL__" if shared else "__ADMIN__")]
     if admin_prefix:
         al.append("  prefix %s" % q(admin_prefix))
     for t in admin:
         al.append("  auth token %s" % q(t["ref"]))
-        env.update(t["env"]); files.update(t["files"])
+        env.update(t["env"]); files.update(t["files"]); take_vault(t)
     lines.append("admin_api {\n%s\n}" % "\n".join(al))
     for r in routes:
         pb = ["    path %s" % q(r["endpoint"])]
         for t in r["tokens"]:
             pb.append("    auth token %s" % q(t["ref"]))
-            env.update(t["env"]); files.update(t["files"])
+            env.update(t["env"]); files.update(t["files"]); take_vault(t)
         lines.append("%s {\n  pull {\n%s\n  }\n}" % (q(r["route"]), "\n".join(pb)))
     lines.append('"/push" {\n  deliver "https://t.example/c11" {}\n}')
-    return {"text": "\n".join(lines) + "\n", "env": env, "files": files, "glob": glob, "admin": admin, "routes": routes,
+    return {"text": "\n".join(lines) + "\n", "env": env, "files": files, "vault": vault, "glob": glob, "admin": admin, "routes": routes,
             "pull_prefix": pull_prefix, "admin_prefix": admin_prefix, "shared": shared, "mode": mode}
 
 
@@ -333,7 +344,7 @@ def main(ctx, replay):
     assumptions = [
         "HTTP: the model receives URL.Path and the Authorization values as the listener's handler sees them (net/http parsing is library code)",
         "gRPC loopback: metadata values are printable ASCII without surrounding blanks and are assumed to reach the server unchanged; other values go to an in-process workerapi.Server wired with the same runtimeState callbacks",
-        "vault: secret references are not exercised (no network); env:, file:, raw: are",
+        "vault: secret references are served by a fake Vault (KV v2 answers over plain HTTP on loopback); TLS, namespaces and Vault error paths are not exercised",
         "sharedPrefixMux (pull and admin on one listener) is mirrored by the Python glue: pull requests carry the pull prefix, admin requests the admin prefix",
     ]
     cov = C.proof_coverage(info, "C11")
@@ -386,9 +397,9 @@ def main(ctx, replay):
     for c in cfgs:
         rq = build_requests(rng, c, apaths, app_paths, quick)
         all_reqs.append(rq)
-        inputs.append({"text": c["text"], "env": c["env"], "files": c["files"], "requests": [{k: v for k, v in r.items() if not k.startswith("_")} for r in rq]})
+        inputs.append({"text": c["text"], "env": c["env"], "files": c["files"], "vault": c.get("vault") or {}, "requests": [{k: v for k, v in r.items() if not k.startswith("_")} for r in rq]})
     for c in loadfail:
-        inputs.append({"text": c["text"], "env": c["env"], "files": c["files"], "requests": []})
+        inputs.append({"text": c["text"], "env": c["env"], "files": c["files"], "vault": c.get("vault") or {}, "requests": []})
     ccases = [gen_compile_case(rng, i) for i in range(n_compile)]
     for c in ccases:
         inputs.append({"text": c["text"], "env": {}, "files": {}, "requests": []})
